@@ -91,11 +91,12 @@ fn main() {
         }
         // seed corpus of C01's coverage-guided campaign: `vp corpus <dir> <n>` (VERIF_SEED)
         "corpus" => {
-            // vp corpus <dir> <n> [C01|C21|C26]
+            // vp corpus <dir> <n> [C01|C08|C21|C26]
             let n: u32 = args.get(3).and_then(|s| s.parse().ok()).unwrap_or(300);
             let seed: u64 = std::env::var("VERIF_SEED").ok().and_then(|s| s.parse().ok()).unwrap_or(0);
             let dir = std::path::Path::new(&args[2]);
             let r = match args.get(4).map(|s| s.as_str()).unwrap_or("C01") {
+                "C08" => props::c08::dump_corpus(dir, n, seed),
                 "C21" => props::c21::dump_corpus(dir, n, seed),
                 "C26" => props::c26::dump_corpus(dir, n, seed),
                 _ => props::c01::dump_corpus(dir, n, seed),
